@@ -25,6 +25,7 @@ func allChecks() []*Check {
 			ID: "C05", Title: "State tracking is applied before user handlers observe a line",
 			Harnesses: []Harness{
 				{Pkg: "client", Func: "VerifSession", Sched: true, Quick: map[string]int{"N": 3, "SW": 1, "KINDS": 0, "TRACK": 1}, Thorough: map[string]int{"N": 4, "SW": 2, "KINDS": 0, "TRACK": 1}, Asserts: []string{"tracker-reflects-the-line-at-handler-entry", "tracker-not-ahead-while-fg-handler-runs"}},
+				{Pkg: "client", Func: "VerifSession", Sched: true, Quick: map[string]int{"N": 3, "SW": 1, "KINDS": 0, "TRACK": 1, "SCRIPT": 1}, Thorough: map[string]int{"N": 5, "SW": 1, "KINDS": 0, "TRACK": 1, "SCRIPT": 1}, Asserts: []string{"tracker-reflects-the-line-at-handler-entry", "tracker-not-ahead-while-fg-handler-runs"}, Note: "tracker-centred script: own JOIN, other JOIN, NICK, MODE +o, TOPIC; handlers read channel snapshots"},
 				{Pkg: "client", Func: "VerifC05Internal", Asserts: []string{"state-handler-is-internal", "state-handler-not-in-user-sets"}},
 			},
 			Bounds:      map[string]string{"quick": "the C03 session (3 lines: 001 changing the nick, own JOIN creating the channel, another user's JOIN) with state tracking on: every foreground and background user handler checks at entry that the tracker reflects its line, and a foreground handler that yields mid-way checks that the next line is not applied yet; schedules within delay bound 1; plus: every state handler is registered in the internal set only", "thorough": "4 lines, delay bound 2"},
@@ -168,11 +169,11 @@ func allChecks() []*Check {
 		{
 			ID: "C12", Title: "The state tracker behaves as a relational model of nicks and channels",
 			Harnesses: []Harness{
-				{Pkg: "state", Func: "VerifC12Step", Quick: map[string]int{"NN": 3, "NC": 1, "ML": 2, "OP": -2}, Thorough: map[string]int{"NN": 3, "NC": 2, "ML": 3, "OP": -2},
+				{Pkg: "state", Func: "VerifC12Step", Quick: map[string]int{"NN": 3, "NC": 1, "ML": 2, "OP": -2, "WARM": 1}, Thorough: map[string]int{"NN": 3, "NC": 2, "ML": 3, "OP": -2, "WARM": 1},
 					Asserts: []string{"invariant", "GetNick", "GetChannel", "Me", "IsOn", "tracked-sets", "ReNick-result", "DelChannel-result"}, Note: "all methods but ChannelModes"},
-				{Pkg: "state", Func: "VerifC12Step", Quick: map[string]int{"NN": 2, "NC": 1, "ML": 1, "MA": 1, "OP": 8}, Thorough: map[string]int{"NN": 2, "NC": 1, "ML": 2, "MA": 2, "OP": 8},
+				{Pkg: "state", Func: "VerifC12Step", Quick: map[string]int{"NN": 2, "NC": 1, "ML": 1, "MA": 1, "OP": 8, "WARM": 1}, Thorough: map[string]int{"NN": 2, "NC": 1, "ML": 2, "MA": 2, "OP": 8, "WARM": 1},
 					Asserts: []string{"ChannelModes-result", "invariant"}, Note: "ChannelModes, every byte value"},
-				{Pkg: "state", Func: "VerifC12Step", Quick: map[string]int{"NN": 2, "NC": 1, "ML": 3, "MA": 2, "OP": 8, "ALPHA": 1, "PLUS": 1, "ONCHAN": 1}, Thorough: map[string]int{"NN": 2, "NC": 1, "ML": 3, "MA": 2, "OP": 8, "ALPHA": 1, "ONCHAN": 1},
+				{Pkg: "state", Func: "VerifC12Step", Quick: map[string]int{"NN": 2, "NC": 1, "ML": 3, "MA": 2, "OP": 8, "WARM": 1, "ALPHA": 1, "PLUS": 1, "ONCHAN": 1}, Thorough: map[string]int{"NN": 2, "NC": 1, "ML": 3, "MA": 2, "OP": 8, "WARM": 1, "ALPHA": 1, "ONCHAN": 1},
 					Asserts: []string{"ChannelModes-result", "invariant"}, Note: "ChannelModes, representative alphabet"},
 			},
 			Bounds:      map[string]string{"quick": "pre-state: ANY valid tracker state over 2 nick slots (the client + 1) x 1 channel with every attribute, mode flag and privilege symbolic, names distinct symbolic 1-byte strings (channel names # or &); one call of each of the 13 mutating/query methods + NewTracker with symbolic arguments (names of 0..1 bytes); ChannelModes: 1 mode byte over all 256 values with <= 1 argument, and '+' followed by 2 bytes over a representative alphabet {+,-,i,k,l,o,v,?} with <= 2 arguments", "thorough": "3 nick slots x 2 channels; ChannelModes: 2 bytes over all values, 3 over the representative alphabet, <= 2 arguments"},
